@@ -127,6 +127,14 @@ def same_graph(a, b):
     return canon_eq(canon(x), canon(y))
 
 
+def json_safe_graph(g):
+    try:
+        json.dumps(g.metadata, allow_nan=False)
+        return True
+    except (ValueError, TypeError):
+        return False
+
+
 def check_graph(ctx, g, doc, kind, tmpdir, known=None):
     a = g.asdict()
     for name, fn in roundtrip_variants(g, ctx.rng, tmpdir):
@@ -295,8 +303,16 @@ def run(ctx):
                         p = os.path.join(tmpdir, "multi.yaml")
                         demes.dump_all(gs, p, simplified=simp)
                         back2 = list(demes.load_all(p))
+                        # the stream consumed lazily, each graph round-tripped on its own WHILE the iterator is suspended
+                        # (a user checking every model of a file as it is read)
+                        back3 = []
+                        for x in demes.load_all(io.StringIO(s.getvalue())):
+                            y = demes.loads(demes.dumps(x, simplified=simp))
+                            z = demes.loads(demes.dumps(x, format="json", simplified=simp), format="json") if json_safe_graph(x) else y
+                            back3.append(x if same_graph(y.asdict(), x.asdict()) and same_graph(z.asdict(), x.asdict()) else None)
                         ok = len(back) == k and len(back2) == k and all(same_graph(x.asdict(), y.asdict()) for x, y in zip(back, gs)) \
-                            and all(same_graph(x.asdict(), y.asdict()) for x, y in zip(back2, gs))
+                            and all(same_graph(x.asdict(), y.asdict()) for x, y in zip(back2, gs)) \
+                            and len(back3) == k and all(x is not None and same_graph(x.asdict(), y.asdict()) for x, y in zip(back3, gs))
                         why = None if ok else "gives different graphs"
                     except Exception as e:  # noqa: BLE001
                         why = f"raises {type(e).__name__}"
